@@ -409,6 +409,33 @@ static void run_case(const char *hex, const char *sched) {
             case 'f': { Janet o; Janet a[1] = { r.pv }; drain(&r); if (pcallc(cfun_parse_flush, 1, a, &o)) tr_panic(&r, "f", o); } break;
             case 'F': { Janet o; Janet a[1] = { r.pv }; if (pcallc(cfun_parse_flush, 1, a, &o)) tr_panic(&r, "F", o); } break;
             case 'R': r.rawerr = 1; break;
+            case 'I': {
+                /* parser/insert of a small menu of values: changes what is parsed (solo schedules only) */
+                Janet iv;
+                switch (n % 5) {
+                    case 0: iv = janet_cstringv("ins"); break;
+                    case 1: iv = janet_ckeywordv("k"); break;
+                    case 2: iv = janet_wrap_nil(); break;
+                    case 3: iv = janet_wrap_true(); break;
+                    default: iv = janet_csymbolv("sy"); break;
+                }
+                Janet o;
+                Janet a[2] = { r.pv, iv };
+                if (pcallc(cfun_parse_insert, 2, a, &o)) tr_panic(&r, "I", o);
+                if (status_is(&r, "error")) handle_error(&r);
+                break;
+            }
+            case 'L': case 'M': {
+                /* parser/where with arguments: L<n> sets the line, M<n> sets line 7 and column n */
+                Janet o;
+                Janet a[3] = { r.pv, janet_wrap_integer(op == 'L' ? (int32_t) n : 7), janet_wrap_integer((int32_t) n) };
+                if (pcallc(cfun_parse_where, op == 'L' ? 2 : 3, a, &o)) tr_panic(&r, "L", o);
+                else {
+                    const Janet *t = janet_unwrap_tuple(o);
+                    tx_printf(&r.tr, "@%zu:L=%d:%d ", r.pos + r.eofoff, janet_unwrap_integer(t[0]), janet_unwrap_integer(t[1]));
+                }
+                break;
+            }
             case 'E': op_eof(&r); break;
             case 'G': janet_collect(); break;
             case 'x': {
